@@ -394,7 +394,7 @@ func New(ctx context.Context, next http.Handler, config *Config, name string) (h
 		forceHTTPS:            config.ForceHTTPS,
 		enablePKCE:            config.EnablePKCE,
 		scopes:                config.Scopes,
-		limiter:               rate.NewLimiter(rate.Every(time.Second), config.RateLimit),
+		limiter:               rate.NewLimiter(rate.Limit(config.RateLimit), config.RateLimit),
 		tokenCache:            NewTokenCache(),
 		httpClient:            httpClient,
 		excludedURLs:          createStringMap(config.ExcludedURLs),
